@@ -18,7 +18,9 @@ NamesQ == {<<>>, <<A>>, <<A, B>>, <<A, B, C>>, <<B>>}
 ValuesQ == {<<>>, <<x>>, <<EQ_, y>>, <<a, EQ_, b>>}
 NoEqQ == {<<>>, <<A>>, <<A, B>>}                      \* entries without '='
 EntriesQ == {n \o <<EQ_>> \o v : n \in NamesQ, v \in ValuesQ} \cup NoEqQ
-KeysQ == {<<>>, <<A>>, <<A, B>>, <<A, B, C>>, <<A, B, C, D>>, <<B>>, <<C>>}
+KeysQ == {<<>>, <<A>>, <<A, B>>, <<A, B, C>>, <<A, B, C, D>>, <<B>>, <<C>>,
+          \* keys no name can equal: with '=' and with an embedded NUL
+          <<A, EQ_>>, <<EQ_, A>>, <<EQ_>>, <<A, 0>>, <<0>>, <<A, EQ_, x, 0, B>>}
 
 \* for the boot / args walks the contents matter little: few strings, all lengths 0..3
 ArgStrs == {<<>>, <<a>>, <<FF>>}
